@@ -91,7 +91,7 @@ pub fn parse_ts(toks: &[char]) -> Result<Vec<(TS, SSpan)>, String> {
                     let p = *i;
                     *i += 1;
                     let (inner, q) = go(toks, i, depth + 1)?;
-                    v.push((TS::Group(inner, SSpan::from(3 * q + 1..3 * q + 1)), SSpan::from(3 * p + 1..3 * q + 2)));
+                    v.push((TS::Group(inner, SSpan::from(3 * q..3 * q + 1)), SSpan::from(3 * p + 1..3 * q + 2)));
                 }
                 ')' => {
                     if depth == 0 {
